@@ -80,7 +80,7 @@ def run(ctx):
             name, files = leafsets_files(ctx, inst, k, bad)
             r2 = ctx.tlc(name, name + ".cfg", workers=1, extra_files=files, name="ls-neg")
             if r2["ok"]:
-                raise common.MachineryError("LeafSets self-test: a trace with one leaf removed was accepted")
+                ctx.deferred.append("LeafSets self-test: a trace with one leaf removed was accepted")  # incomplete run (exit 2 unless a violation was reproduced); the remaining parts still run
             ctx.extra["trace_negative_selftests"] = 1
     # ---- M1 -------------------------------------------------------------------------------------------------------
     jobs = list(targeted)
